@@ -27,7 +27,7 @@ Definition gz (l : Z) : ccfg := {| c_type := s_gzip; c_level := l; c_hdr := None
 Definition srv (mx : Z) (algs : option (list string)) (cu : list (string * option N)) : scfg :=
   {| s_max := mx; s_algs := algs; s_custom := cu; s_mw := 0 |}.
 Definition rq (ce : list string) (b : bytes) : creq :=
-  {| q_ce := ce; q_body := Some b; q_raw := []; q_stream := false; q_rerr := false; q_cerr := false |}.
+  {| q_ce := ce; q_body := Some b; q_raw := []; q_stream := false; q_reads := 0; q_rerr := false; q_cerr := false |}.
 Definition wr (ce : list string) (b : bytes) : wreq := {| w_ce := ce; w_body := b; w_cl := blen b; w_rewind := Some b |}.
 
 (* all hypotheses of [roundtrip] hold for a concrete non-trivial instance, and the conclusion computes *)
@@ -91,9 +91,9 @@ Proof. vm_compute. repeat split. Qed.
 
 (* a body that fails while being compressed: nothing is sent; with a preset header it is not touched *)
 Example ex_body_error :
-  client toy_enc (gz 0) {| q_ce := []; q_body := Some [1]%N; q_raw := []; q_stream := false; q_rerr := true; q_cerr := false |} = CError /\
-  client toy_enc (gz 0) {| q_ce := []; q_body := Some [1]%N; q_raw := []; q_stream := false; q_rerr := false; q_cerr := true |} = CError /\
-  client toy_enc (gz 0) {| q_ce := []; q_body := None; q_raw := []; q_stream := false; q_rerr := true; q_cerr := true |}
+  client toy_enc (gz 0) {| q_ce := []; q_body := Some [1]%N; q_raw := []; q_stream := false; q_reads := 0; q_rerr := true; q_cerr := false |} = CError /\
+  client toy_enc (gz 0) {| q_ce := []; q_body := Some [1]%N; q_raw := []; q_stream := false; q_reads := 0; q_rerr := false; q_cerr := true |} = CError /\
+  client toy_enc (gz 0) {| q_ce := []; q_body := None; q_raw := []; q_stream := false; q_reads := 0; q_rerr := true; q_cerr := true |}
     = CSent (wr ([s_gzip]) ([7]%N)).
 Proof. vm_compute. repeat split. Qed.
 
@@ -104,9 +104,9 @@ Example ex_chunked :
   server toy_dec toy_cdec (srv 3 None []) {| w_ce := [s_gzip]; w_body := [7;1;2;3;4]%N; w_cl := (-1); w_rewind := None |}
     = Handled [] (-1) ([1;2]%N, E_TOOLARGE) /\
   client toy_enc {| c_type := s_none; c_level := 0; c_hdr := None |}
-         {| q_ce := []; q_body := Some [1;2]%N; q_raw := []; q_stream := true; q_rerr := false; q_cerr := false |}
+         {| q_ce := []; q_body := Some [1;2]%N; q_raw := []; q_stream := true; q_reads := 0; q_rerr := false; q_cerr := false |}
     = CSent {| w_ce := []; w_body := [1;2]%N; w_cl := (-1); w_rewind := None |} /\
-  client toy_enc (gz 0) {| q_ce := []; q_body := Some [1;2]%N; q_raw := []; q_stream := true; q_rerr := false; q_cerr := false |}
+  client toy_enc (gz 0) {| q_ce := []; q_body := Some [1;2]%N; q_raw := []; q_stream := true; q_reads := 0; q_rerr := false; q_cerr := false |}
     = CSent {| w_ce := [s_gzip]; w_body := [7;1;2]%N; w_cl := 3; w_rewind := Some [7;1;2]%N |}.
 Proof. vm_compute. repeat split. Qed.
 
@@ -191,14 +191,14 @@ Example ex_headers_chain :
   e2e toy_enc toy_dec toy_cdec {| c_type := s_none; c_level := 0; c_hdr := Some s_gzip |} (srv 100 None []) (rq [] [1;2]%N)
     = Some (Rejected 400) /\
   e2e toy_enc toy_dec toy_cdec (gz 0) (srv 100 None [])
-      {| q_ce := []; q_body := Some [7;5]%N; q_raw := [s_gzip]; q_stream := false; q_rerr := false; q_cerr := false |}
+      {| q_ce := []; q_body := Some [7;5]%N; q_raw := [s_gzip]; q_stream := false; q_reads := 0; q_rerr := false; q_cerr := false |}
     = Some (Handled [] (-1) ([7;5]%N, E_EOF)).
 Proof. vm_compute. repeat split. Qed.
 
 (* histories: non-vacuity of roundtrip_history (two different bodies, a nil body) and of client_refused_iff *)
 Example ex_history :
   run_history toy_enc toy_dec toy_cdec (gz 3) (srv 10 None [])
-    [rq [] [1;2;3]%N; rq [] []; {| q_ce := []; q_body := None; q_raw := []; q_stream := false; q_rerr := false; q_cerr := false |}]
+    [rq [] [1;2;3]%N; rq [] []; {| q_ce := []; q_body := None; q_raw := []; q_stream := false; q_reads := 0; q_rerr := false; q_cerr := false |}]
   = [Some (Handled [] (-1) ([1;2;3]%N, E_EOF)); Some (Handled [] (-1) ([], E_EOF)); Some (Handled [] (-1) ([], E_EOF))].
 Proof. vm_compute. reflexivity. Qed.
 
